@@ -196,6 +196,23 @@ def run(program, res, tier):
         res.fail_at("C27-S1", pe, "pandas-sort-direction", "the window sort's `ascending` does not derive from op.reverse: reversed columns are sorted ascending", cs)
     else:
         res.ok("C27-S1", "Pandas: window sort direction derives from op.reverse")
+    # the sort may be left out when there is nothing to sort by; a test that looks at the *rows* (already in order?) decides from the data whether the
+    # window follows op.reverse, unless it takes the direction into account itself
+    frames = {"res"} | {t.id for st in ast.walk(pe.node) if isinstance(st, ast.Assign) for t in st.targets if isinstance(t, ast.Name)
+                        and any(isinstance(c_, ast.Call) and isinstance(c_.func, ast.Attribute) and c_.func.attr in ("clean_copy", "sort_values", "copy", "reset_index")
+                                for c_ in ast.walk(st.value))}
+    for b_, _l in g.lexical_guards(ns):
+        if not isinstance(b_.stmt, ast.If):
+            continue
+        reads_rows = [x.id for x in ast.walk(b_.cond) if isinstance(x, ast.Name) and x.id in frames]
+        if not reads_rows:
+            continue
+        if depsmod.has_root(d.cond_roots(b_), "op.reverse"):
+            res.ok("C27-S1", f"Pandas: `{unparse(b_.cond)[:60]}` looks at the rows and at the directions before leaving the window sort out")
+        else:
+            res.fail_at("C27-S1", pe, "pandas-sort-skipped-on-data-test",
+                        f"the window sort runs only if `{unparse(b_.cond)[:70]}`, a test of the rows (`{reads_rows[0]}`) that does not know op.reverse: rows that already come in "
+                        f"ascending order are not sorted although the window asks for descending, so cumsum / shift / row_number depend on the incoming row order", b_.cond)
     # partition columns ahead of the order columns: the key list is seeded from partition_by, order_by appended
     # the key list, by role: the local seeded from op.partition_by that is appended to inside `for c in op.order_by`
     klist = None
